@@ -131,19 +131,6 @@ def Matches : List Tok → Str → Prop
   | .param :: ts, p => p ≠ [] ∧ Matches ts (p.drop (p.takeWhile (· ≠ '/')).length)
   | .any :: _, _ => True
 
-/-- `*` is the last token of every residual -/
-def anyLast : List Tok → Bool
-  | [] => true
-  | .any :: ts => ts.isEmpty
-  | _ :: ts => anyLast ts
-
-def AnyLastR (r : R) : Prop := ∀ x ∈ r, anyLast x.1 = true
-
-theorem anyLastR_deriv {t : Tok} {r : R} (h : AnyLastR r) : AnyLastR (deriv t r) := by
-  intro ⟨ts, e⟩ hx
-  have := h _ (mem_deriv.mp hx)
-  cases t <;> simp_all [anyLast]
-
 theorem orElse_hit_of_left {x : Res × Best} {k : Best → Res × Best} {e : Entry} {v : List Str}
     (h : x.1 = .hit e v) : (orElse x k).1 = .hit e v := by
   obtain ⟨res, b⟩ := x
